@@ -204,6 +204,10 @@ class Engine:
         if collect_outcomes is not None:
             collect_outcomes.append((list(self.pc), outcome, value, self.env))
         if outcome == 'return':
+            for term, ghost in c.exports.items():
+                self.pc.append(zint(self.spec(term, use_old=True)) == zint(self.spec(ghost)))
+            for exc, (must, may) in c.raises_bounds.items():
+                self.oblige('raises', f'{exc}.must', z3.Not(zbool(self.spec(must, use_old=True))))
             # "E is raised iff cond": on a normal return no declared raise-condition may hold
             for exc, cond in c.raises.items():
                 if cond is not None:
@@ -217,7 +221,9 @@ class Engine:
                 self.oblige('canary', str(i), zbool(self.spec(p, {'result': value})))
             self.frame_obligations(c)
         else:
-            if value in c.raises:
+            if value in c.raises_bounds:
+                self.oblige('raises', f'{value}.may', zbool(self.spec(c.raises_bounds[value][1], use_old=True)))
+            elif value in c.raises:
                 cond = c.raises[value]
                 if cond is not None:
                     self.oblige('raises', f'{value}.if', zbool(self.spec(cond, use_old=True)))
@@ -1296,14 +1302,19 @@ class Engine:
 
     # ------------------------------------------------------------------ calls
     def find_contract(self, cls, meth):
+        """First registered contract of cls.meth (searching base classes); variants are chosen at the call."""
         seen = [cls]
         while seen:
             c = seen.pop(0)
             cc = self.registry.get(f'{c}.{meth}')
-            if cc is not None:
-                return cc
+            if cc:
+                return cc[0] if isinstance(cc, list) else cc
             seen.extend(self.bases.get(c, []))
         return None
+
+    def variants(self, cc):
+        v = self.registry.get(cc.qual)
+        return v if isinstance(v, list) else [cc]
 
     def e_Call(self, e):
         ftxt = ast.unparse(e.func)
@@ -1337,8 +1348,8 @@ class Engine:
             if r is not NotImplemented:
                 return r
             cc = self.registry.get(name)
-            if cc is not None:
-                return self.call_contract_or_inline(cc, None, args, kwargs)
+            if cc:
+                return self.call_contract_or_inline(cc[0] if isinstance(cc, list) else cc, None, args, kwargs)
             ctor = self.c.ctors.get(name) or self.world.get('__ctors__', {}).get(name)
             if ctor is not None:
                 return ctor(self, args, kwargs)
@@ -1497,6 +1508,10 @@ class Engine:
     def apply_contract(self, cc, node, recv, args, kwargs):
         """Modular call: assert requires, havoc modifies, assume ensures (never the body)."""
         frame = self.bind(node, recv, args, kwargs, '.' in cc.qual)
+        cands = [v for v in self.variants(cc) if v.applies is None or v.applies(frame)]
+        if len(cands) != 1:
+            raise Unsupported(f'call of {cc.qual}: {len(cands)} contract variants fit this call site')
+        cc = cands[0]
         frame['__parent__'] = None
         short = cc.qual.split('.')[-1]
         
@@ -1526,6 +1541,20 @@ class Engine:
                     self.pc.append(z3.Not(cz)) if False else None
                     continue
                 if self.branch(cz):
+                    raise PyRaise(exc)
+            for exc, (must, may) in cc.raises_bounds.items():
+                self.in_spec += 1
+                try:
+                    mz = zbool(self.eval(ast.parse(must.strip(), mode='eval').body))
+                    yz = zbool(self.eval(ast.parse(may.strip(), mode='eval').body))
+                finally:
+                    self.in_spec -= 1
+                if self.in_spec:
+                    continue
+                raised = fresh('raised', BOOL)
+                self.assume(z3.Implies(mz, raised))
+                self.assume(z3.Implies(raised, yz))
+                if self.branch(raised):
                     raise PyRaise(exc)
             # havoc what the callee may modify
             for m in cc.modifies:
